@@ -566,23 +566,23 @@ func freshTarget(tgt ssa.Value, depth int) bool {
 // featuresFreshPerStream: Session.Features is replaced as a whole, after the stream open and after every restart, by a value decoded
 // into a fresh local; the negotiation's replies are decoded into fresh locals too (shared by C14.O1 and C03.R7).
 func featuresFreshPerStream(w *World, r *Report, rule string) {
-		fFeat := w.Field("xmpp.Session.Features")
-		nStores := 0
-		for _, a := range w.fieldAccesses(fFeat, w.LibFuncs()) {
-			if a.Kind != "store" {
-				continue
-			}
-			nStores++
-			okSrc := w.isResultOf(origin(a.Val), 0, "xmpp.Session.extractStreamFeatures")
-			r.Check(okSrc, rule, w.funcKey(a.Fn)+"#store:Features", w.ipos(a.Instr), "the session's stream features are assigned from something other than a freshly decoded value", "Features = extractStreamFeatures()")
+	fFeat := w.Field("xmpp.Session.Features")
+	nStores := 0
+	for _, a := range w.fieldAccesses(fFeat, w.LibFuncs()) {
+		if a.Kind != "store" {
+			continue
 		}
-		if nStores < 2 {
-			r.Fail(rule, "xmpp.Session.Features#assignments", "-", fmt.Sprintf("the session's stream features are assigned as a whole %d time(s); they must be replaced after the stream open and after every stream restart — decoding into the existing value makes encoding/xml append to the mechanism list, so mechanisms advertised on an earlier stream (before STARTTLS, or on a previous connection) still count as advertised", nStores))
+		nStores++
+		okSrc := w.isResultOf(origin(a.Val), 0, "xmpp.Session.extractStreamFeatures")
+		r.Check(okSrc, rule, w.funcKey(a.Fn)+"#store:Features", w.ipos(a.Instr), "the session's stream features are assigned from something other than a freshly decoded value", "Features = extractStreamFeatures()")
+	}
+	if nStores < 2 {
+		r.Fail(rule, "xmpp.Session.Features#assignments", "-", fmt.Sprintf("the session's stream features are assigned as a whole %d time(s); they must be replaced after the stream open and after every stream restart — decoding into the existing value makes encoding/xml append to the mechanism list, so mechanisms advertised on an earlier stream (before STARTTLS, or on a previous connection) still count as advertised", nStores))
+	}
+	for _, k := range []string{"xmpp.(*Session).extractStreamFeatures", "xmpp.(*Session).bind", "xmpp.(*Session).rfc3921Session", "xmpp.(*Session).startTlsIfSupported"} {
+		fn := w.Func(k)
+		for _, c := range w.callsInH(fn, "encoding/xml.Decoder.Decode", "encoding/xml.Decoder.DecodeElement") {
+			r.Check(freshDecodeTarget(c), rule, k+"#decode-target", w.ipos(c), "a reply is decoded into a value that is not a fresh zero value: encoding/xml does not clear its target and appends to slices, so state of an earlier stream leaks into this one", "decodes into a fresh local")
 		}
-		for _, k := range []string{"xmpp.(*Session).extractStreamFeatures", "xmpp.(*Session).bind", "xmpp.(*Session).rfc3921Session", "xmpp.(*Session).startTlsIfSupported"} {
-			fn := w.Func(k)
-			for _, c := range w.callsInH(fn, "encoding/xml.Decoder.Decode", "encoding/xml.Decoder.DecodeElement") {
-				r.Check(freshDecodeTarget(c), rule, k+"#decode-target", w.ipos(c), "a reply is decoded into a value that is not a fresh zero value: encoding/xml does not clear its target and appends to slices, so state of an earlier stream leaks into this one", "decodes into a fresh local")
-			}
-		}
+	}
 }
